@@ -97,6 +97,8 @@ RefCodecSound(m) ==
 \* C13: one unsupported payload inserted at position pos of the chain of m
 \* sc = 1: the implemented payloads of the base message carry the critical flag themselves (it must be ignored on them)
 WithCrit(w, sc) == [w EXCEPT !.payloads = [i \in 1..Len(w.payloads) |-> [w.payloads[i] EXCEPT !.crit = sc]]]
+UsedFirst == [ispi |-> << 1, 2, 3, 4, 5, 6, 7, 8 >>, rspi |-> << 8, 7, 6, 5, 4, 3, 2, 1 >>, maj |-> 2, min |-> 0, xt |-> 37, flags |-> 8, mid |-> << 0, 0, 0, 9 >>,
+              payloads |-> << [k |-> "NONCE", data |-> << 1, 2, 3, 4 >>], [k |-> "V", data |-> << 9, 9 >>] >>]
 InsertVector(m, pos, t, crit, body, sc) ==
   LET w  == WithCrit(PlainMsg(Norm(m)), sc)
       w2 == [w EXCEPT !.payloads = InsertUnk(w.payloads, pos, t, crit, 0, body)]
@@ -108,6 +110,9 @@ InsertVector(m, pos, t, crit, body, sc) ==
     Step("decode_chain", "C13", FALSE, [first |-> FirstOf(w2.payloads), wire |-> EncChainW(w2.payloads), caps |-> FALSE],
          IF crit = 1 THEN [panic |-> FALSE, capdiff |-> FALSE, err |-> TRUE]
                      ELSE [panic |-> FALSE, capdiff |-> FALSE, err |-> FALSE, payloads |-> NormChain(m.payloads)]),
+    \* an object that has already received a datagram receives this one: the skipped payload makes no difference there either
+    Step("decode_used", "C13", FALSE, [first |-> EncMsg(Norm(UsedFirst)), wire |-> b, plain |-> EncMsg(Norm(m))],
+         IF crit = 1 THEN [panic |-> FALSE] ELSE [panic |-> FALSE, usedsame |-> TRUE]),
     \* the same datagram through DecodeDecrypt without keys and with a pre-parsed header (the harness repeats the call with the
     \* same header object, with one parsed from the header octets alone and with one parsed from a buffer reused since)
     Step("unprotect", "C13", FALSE, [sa |-> "none", role |-> FALSE, wire |-> b, hdrmode |-> "pre", caps |-> FALSE],
